@@ -65,7 +65,21 @@ func C04(tier string) {
 		return p.dst.ToNRGBA(p.dst.FromXYZ(xyz), alpha)
 	}
 	check := func(p *c04Pair, c color.NRGBA) {
-		out := conv(p, c)
+		var out color.NRGBA
+		panicked := true
+		func() {
+			defer func() {
+				if pn := recover(); pn != nil {
+					r.Violate(fmt.Sprintf("%s->%s/panic", p.src.Name, p.dst.Name), fmt.Sprintf("%s->%s pixel %v: the conversion panicked: %v", p.src.Name, p.dst.Name, c, pn),
+						map[string]interface{}{"src": p.src.Name, "dst": p.dst.Name, "pixel": []uint8{c.R, c.G, c.B, c.A}}, nil)
+				}
+			}()
+			out = conv(p, c)
+			panicked = false
+		}()
+		if panicked {
+			return
+		}
 		ref := p.T.MulV(refs.V3{p.eotf[c.R], p.eotf[c.G], p.eotf[c.B]})
 		got := [3]uint8{out.R, out.G, out.B}
 		for ch := 0; ch < 3; ch++ {
@@ -99,18 +113,13 @@ func C04(tier string) {
 	}
 
 	var lattice []uint8
+	for v := 0; v < 256; v++ {
+		lattice = append(lattice, uint8(v))
+	}
 	if tier == "thorough" {
-		for v := 0; v < 256; v++ {
-			lattice = append(lattice, uint8(v))
-		}
-		r.Rule("all 2^24 RGB at alphas 255, 254, 128, 1 and 0 for each of the 16 ordered pairs (complete), plus all 256 alphas x the 4,096-point lattice {0,17,...,255}^3; distinct = (pair, pixel) combinations whose reference value is strictly inside the destination gamut on all channels")
+		r.Rule("all 2^24 RGB at alphas 255, 254, 128, 1 and 0 for each of the 16 ordered pairs (complete), all 256 greys x all 256 alphas, plus all 256 alphas x the 4,096-point lattice {0,17,...,255}^3; distinct = (pair, pixel) combinations whose reference value is strictly inside the destination gamut on all channels")
 	} else {
-		for v := 0; v < 256; v += 3 {
-			lattice = append(lattice, uint8(v))
-		}
-		lattice = append(lattice, 1, 2, 253, 254)
-		r.NotExhaustive()
-		r.Rule("90^3 lattice {0,1,2,3,6,9,...,252,253,254,255}^3 at alpha 255, all 256 greys, the six gamut faces on a 32-step lattice, alphas {0,1,2,127,128,254,255} x {0,17,...,255}^3, for each of the 16 ordered pairs; distinct = (pair, pixel) combinations whose reference value is strictly inside the destination gamut on all channels")
+		r.Rule("all 2^24 RGB at alpha 255 for each of the 16 ordered pairs (complete), all 256 greys x all 256 alphas, alphas {0,1,2,127,128,254,255} x {0,17,...,255}^3; distinct = (pair, pixel) combinations whose reference value is strictly inside the destination gamut on all channels")
 	}
 
 	for pi := range pairs {
@@ -161,19 +170,10 @@ func C04(tier string) {
 					}
 				}
 			}
-			if tier != "thorough" {
-				for v := shard; v < 256; v += n {
-					one(color.NRGBA{R: uint8(v), G: uint8(v), B: uint8(v), A: 255})
-					// gamut faces
-					if v%8 == 0 || v == 255 {
-						for w := 0; w < 256; w += 8 {
-							for _, e := range []uint8{0, 255} {
-								one(color.NRGBA{R: e, G: uint8(v), B: uint8(w), A: 255})
-								one(color.NRGBA{R: uint8(v), G: e, B: uint8(w), A: 255})
-								one(color.NRGBA{R: uint8(v), G: uint8(w), B: e, A: 255})
-							}
-						}
-					}
+			// every grey at every alpha (neutral colours are where shortcuts live)
+			for v := shard; v < 256; v += n {
+				for a := 0; a < 256; a++ {
+					one(color.NRGBA{R: uint8(v), G: uint8(v), B: uint8(v), A: uint8(a)})
 				}
 			}
 			r.Eval(evals)
